@@ -16,6 +16,7 @@ mod c14;
 mod fi_fields;
 mod legacy_fields;
 mod c16;
+mod c16req;
 mod c12;
 mod c02;
 mod fsfam;
@@ -59,6 +60,7 @@ fn main() {
                 "C14" => c14::gen(tier, seed, &mut out),
                 "C16" => c16::gen(tier, seed, &mut out),
                 "C16path" => c16::gen_path(tier, seed, &mut out),
+                "C16req" => c16req::gen(tier, seed, &mut out),
                 "C12" => c12::gen(tier, seed, &mut out),
                 "C02" => c02::gen(tier, seed, &mut out),
                 "C08" => c08::gen(tier, seed, &mut out),
@@ -161,6 +163,7 @@ fn replay_one(toks: &[&str]) -> String {
         "C13" => c13::replay(&toks[1..]),
         "C14" => c14::replay(&toks[1..]),
         "C16" => c16::observe(toks),
+        "C16req" => c16req::observe(toks),
         "C16path" => c16::observe_path(&String::from_utf8(common::unhex(toks[1])).unwrap()),
         "C16pp" => c16::observe_pair(
             &String::from_utf8(common::unhex(toks[1])).unwrap(),
